@@ -122,3 +122,15 @@ Theorem file_is_prefix_of_accepted_stream :
     is_prefix (file s ++ parked_bytes s) (concat (accepted (log s))).
 Proof. exact file_prefix_reachable. Qed.
 Print Assumptions file_is_prefix_of_accepted_stream.
+
+(* The checker used when records go through DataPublisher.PublishData (which hides the result of the LJH
+   WriteRecord calls) accepts only: nothing hung, and the stream is the header followed by whole records -
+   some selection [flags] of the records written, each complete, in the order written. *)
+Theorem publish_checker_sound :
+  forall hdr recs strm hung,
+    C07_check_pipe_sub hdr recs strm hung = true ->
+    hung = false /\
+    exists flags, length flags = length recs /\
+                  strm = hdr ++ concat (map fst (filter snd (combine recs flags))).
+Proof. exact pub_checker_means. Qed.
+Print Assumptions publish_checker_sound.
